@@ -148,6 +148,30 @@ def run(chk, prog):
             a_, b_ = ("leaf", P("grad_tree")), ("leaf", P("nongrad_tree"))
             okz = is_t(t_, "treemap") and t_[2] == (P("grad_tree"), P("nongrad_tree")) and t_[1] == ("phi", ("un", "not", ("is", a_, ("const", None))), a_, b_)
             chk.require(okz, "GRAD-PARTITION", "grad_tree_zip", "takes the differentiable leaf when present", derived=show(t_)[:200], expected="v1 if v1 is not None else v2", where=f"{mm_.rel}:{gf_.lineno}")
+    # ---- momenta: one independent key per selected leaf; scored as independent standard normals
+    mm_, smf = prog.func("sample_momenta", MOD)
+    evs = Evaluator(prog)
+    evs.opaque_funcs |= {"assess_momenta", "normal_sample"}
+    rs_ = evs.eval_fn(smf, mm_)
+    CG = P("choice_gradients")
+    seeds = ("call", ("global", "jax.tree_util.tree_unflatten"), (("call", ("global", "jax.tree_util.tree_structure"), (CG,), ()), ("call", ("global", "jax.numpy.arange"), (("call", ("global", "len"), (("call", ("global", "jax.tree_util.tree_leaves"), (CG,), ()),), ()),), ())), ())
+    want_m = ("treemap", ("call", ("global", mm_.dotted + ".normal_sample"), (("call", ("global", "jax.random.fold_in"), (P("key"), ("leaf", seeds)), ()), ("attr", ("leaf", CG), "shape")), ()), (CG, seeds))
+    okm_ = is_t(rs_.ret, "tuple") and len(rs_.ret[1]) == 2 and rs_.ret[1][0] == want_m and is_call(rs_.ret[1][1], "assess_momenta") and rs_.ret[1][1][2] == (want_m,)
+    chk.require(okm_, "KEY-LOOP", "sample_momenta", "independent momentum per selected leaf", derived=show(rs_.ret)[:300], expected="tree_map(normal_sample(fold_in(key, i_leaf), leaf.shape)) with DISTINCT seeds arange(#leaves), and the score of those momenta", where=f"{mm_.rel}:{smf.lineno}")
+    _, amf = prog.func("assess_momenta", MOD)
+    eva = Evaluator(prog)
+    eva.opaque_funcs.add("normal_score")
+    ra_ = eva.eval_fn(amf, mm_)
+    oka_ = is_call(ra_.ret, "sum") and any(is_t(x, "treemap") and x[2] == (P("momenta"),) and is_call(x[1], "normal_score") and x[1][2] == (("bin", "*", P("mul"), ("leaf", P("momenta"))),) for x in subterms(ra_.ret))
+    chk.require(oka_, "ALPHA", "assess_momenta", "sum over leaves of the standard-normal log density of mul * momentum", derived=show(ra_.ret)[:240], expected="sum(normal_score(mul * v) for every leaf)", where=f"{mm_.rel}:{amf.lineno}")
+    _, shf = prog.func("SafeHMC", MOD)
+    rh_ = Evaluator(prog).eval_fn(shf, mm_)
+    okh_ = is_mcall(rh_.ret, "map") and rh_.ret[1][1] == ("ctor", "HMC", (P("selection"), P("eps"), P("L")), ())
+    chk.require(okh_, "DELEG-ROLE", "SafeHMC", "selection, step size and step count all forwarded", derived=show(rh_.ret)[:160], expected="HMC(selection, eps, L).map(retdiff_assertion)", where=f"{mm_.rel}:{shf.lineno}")
+    hc = prog.cls("HMC", MOD)
+    chk.require(hc.fields == ["selection", "eps", "L"], "DELEG-ROLE", "HMC/fields", "field order", derived=str(hc.fields), expected="selection, eps, L", where=f"{hc.module.rel}:{hc.node.lineno}")
+    lens = [x for x in subterms(r.ret) if is_t(x, "scanfinal")]
+    chk.require(sc.length == ("attr", P("self"), "L") and is_t(sc.xs, "bin") and mentions(sc.xs, ("attr", P("self"), "L")), "DELEG-ROLE", "HMC.edit/steps", "L leapfrog steps", derived=f"length={show(sc.length)} xs={show(sc.xs)[:80]}", expected="scan(kernel, ..., arange(L) + 1, length=L)", where=where)
     # ---- ALPHA
     fa = lin(alpha)
     fin_t = ("scanfinal", sid, i_tr)
